@@ -56,11 +56,13 @@ Print Assumptions genio_plan_correct.
     NCvario: NCcoordck rejects the start, or NCvcmaxcontig rejects an edge, or -- NCvcmaxcontig having stopped
     validating at the first short edge -- the ripple counter reaches a position NCcoordck rejects (vario_loop
     induction, vcmaxcontig_sound, oob_bad_position / strided_oob_cell).
-    PARTIAL -- missing: (a) the clause "no cell outside the requested region is modified" as a theorem (by
-    construction vario_loop transfers only blocks p ++ [sk..sk+ek) x whole trailing dimensions at positions p that
-    NCcoordck accepted, which vario_plan_correct shows to be cells of the region; the partial write inside the
-    region is real, see ex_oob); (b) record variables (dimension 0 is growable on write, bounded by numrecs on
-    read). *)
+    Frame clause (sd_write_frame, third conjunct): for a dataset that has storage (after its first write), ANY
+    SDwritedata -- valid or not, any stride mode, returning SUCCEED or FAIL, including the partial writes of a failing
+    request (ex_oob) -- leaves every cell whose offset is not one of the requested slab's cell offsets unchanged.
+    Proof: vario_loop_frame / genio_loop_frame (inductions over both loops), write_cells_frame, and
+    vario_plan_correct to identify the union of the transferred blocks with the slab.
+    PARTIAL -- missing: record variables (dimension 0 growable on write, bounded by numrecs on read); for the very
+    first write the frame reads "everything outside the transfer holds the fill value" (first_write_fills). *)
 Theorem out_of_range_rejected_partial :
   (forall m us start stride count,
      is_recvar m = false -> (0 < length (m_shape m))%nat ->
@@ -76,6 +78,12 @@ Theorem out_of_range_rejected_partial :
      Forall (fun c => 1 <= c) count ->
      all4 dim_in start (if us then stride else ones start) count (m_shape m) = false ->
      exists m' tr, sd_write m us start stride count vals = (m', MRet (-1) tr)) /\
+  (forall m us start stride count vals j,
+     is_recvar m = false -> (0 < length (m_shape m))%nat -> 0 < m_esz m -> m_store m <> [] ->
+     length start = length (m_shape m) -> length count = length (m_shape m) ->
+     (us = true -> length stride = length (m_shape m)) -> Forall (fun d => 0 <= d) (m_shape m) ->
+     ~ In (Z.of_nat j * m_esz m) (map (varoffset m) (slab_cells start (if us then stride else ones start) count)) ->
+     nth j (m_store (fst (sd_write m us start stride count vals))) Undef = nth j (m_store m) Undef) /\
   (* strided reads reaching the extent are rejected before any transfer, dataset untouched *)
   (forall m start stride count,
      is_recvar m = false -> (0 < length (m_shape m))%nat ->
@@ -88,7 +96,8 @@ Theorem out_of_range_rejected_partial :
   (forall c shape, length c = length shape ->
      any2 coordck_bad c shape = negb (all3 (fun x d _ => (0 <=? x) && (x <? d)) c shape c)).
 Proof.
-  split. exact sd_read_rejected. split. exact sd_write_rejected. split. exact sd_read_strided_rejected.
+  split. exact sd_read_rejected. split. exact sd_write_rejected. split. exact sd_write_frame.
+  split. exact sd_read_strided_rejected.
   split. exact stride_check_spec0. split. exact stride_check_speci. exact any2_coordck.
 Qed.
 Print Assumptions out_of_range_rejected_partial.
@@ -160,10 +169,10 @@ Proof. vm_compute. reflexivity. Qed.
 
 (** first write of 2 elements at element 3 of a new 2x3 int32 dataset, user fill 7 *)
 Example ex_first_write :
-  let m := mkM [2; 3] 4 0 (Some 7) 0 false [] in
+  let m := mkM [2; 3] 4 0 (Some 7) 0 false [] 0 in
   var_len m = 6 * 4 /\
   xdr_vdata m true (3 * 4) 2 [Val 100; Val 101] =
-    Some (mkM [2; 3] 4 0 (Some 7) 0 false [Val 7; Val 7; Val 7; Val 100; Val 101; Val 7],
+    Some (mkM [2; 3] 4 0 (Some 7) 0 false [Val 7; Val 7; Val 7; Val 100; Val 101; Val 7] 0,
           [TWrite 0 12; TWrite 12 8; TWrite 20 4], []).
 Proof. vm_compute. split; reflexivity. Qed.
 
@@ -175,10 +184,10 @@ Proof. vm_compute. reflexivity. Qed.
 
 (** growth: numrecs 1 -> write positioned at record 3 of an (unlimited x 2) uint8 dataset *)
 Example ex_growth :
-  let m := mkM [0; 2] 1 1 None 129 false [Val 1; Val 2] in
+  let m := mkM [0; 2] 1 1 None 129 false [Val 1; Val 2] 0 in
   is_recvar m = true /\ var_len m = 2 * 1 /\
   coordck m true [3; 0] =
-    Some (mkM [0; 2] 1 4 None 129 false [Val 1; Val 2; Val 129; Val 129; Val 129; Val 129; Val 129; Val 129],
+    Some (mkM [0; 2] 1 4 None 129 false [Val 1; Val 2; Val 129; Val 129; Val 129; Val 129; Val 129; Val 129] 0,
           [TWrite 2 2; TWrite 4 2; TWrite 6 2]).
 Proof. vm_compute. repeat split; reflexivity. Qed.
 
@@ -192,6 +201,16 @@ Example ex_oob :
   acc_tr (snd (vario true [1; 1] [3; 2] (mkAcc (m_init [3; 4] false DFNT_UINT8) [] [] (map Val [1;2;3;4;5;6]))))
     = [TWrite 0 5; TWrite 5 2; TWrite 7 5; TWrite 9 2].
 Proof. vm_compute. repeat split; auto. repeat constructor; discriminate. Qed.
+
+(** frame instance: 3x4 uint8 dataset with storage; the failing request of ex_oob (rows 1..3 x columns 1..2) leaves
+    cell (0,0) (index 0, offset 0 not among the slab's offsets) unchanged and does write cell (1,1) (index 5) *)
+Example ex_frame :
+  let m := mkM [3; 4] 1 0 None 129 false (repeat (Val 7) 12) 0 in
+  ~ In (Z.of_nat 0 * m_esz m) (map (varoffset m) (slab_cells [1; 1] (ones [1; 1]) [3; 2])) /\
+  snd (sd_write m false [1; 1] [] [3; 2] [1;2;3;4;5;6]) = MRet (-1) [TWrite 5 2; TWrite 9 2] /\
+  m_store (fst (sd_write m false [1; 1] [] [3; 2] [1;2;3;4;5;6])) =
+    [Val 7; Val 7; Val 7; Val 7; Val 7; Val 1; Val 2; Val 7; Val 7; Val 3; Val 4; Val 7].
+Proof. vm_compute. split; [| split; reflexivity]. intros [H | [H | [H | [H | [H | [H | []]]]]]]; discriminate. Qed.
 
 (** a strided write reaching outside: 3x4 dataset, start (0,1) stride (2,2) count (2,2): column 1+2 = 3 ok,
     count (2,3) reaches column 5 *)
